@@ -30,6 +30,22 @@ type Loader struct {
 	limits Limits
 }
 
+// loadState tracks one resolution: the files currently being included (the
+// ancestor stack, used for cycle detection and the depth limit) and the files
+// that are already part of the result (reached earlier along another path).
+type loadState struct {
+	stack  map[string]bool
+	loaded map[string]bool
+	depth  int
+}
+
+func newLoadState() *loadState {
+	return &loadState{
+		stack:  make(map[string]bool),
+		loaded: make(map[string]bool),
+	}
+}
+
 func NewLoader() *Loader {
 	return &Loader{
 		cache:  make(map[string]*ast.Journal),
@@ -94,7 +110,7 @@ func (l *Loader) Load(path string) (*ResolvedJournal, []LoadError) {
 		}}
 	}
 
-	return l.loadWithContent(path, string(content), make(map[string]bool))
+	return l.loadWithContent(path, string(content), newLoadState())
 }
 
 func (l *Loader) LoadFromContent(path, content string) (*ResolvedJournal, []LoadError) {
@@ -106,20 +122,11 @@ func (l *Loader) LoadFromContent(path, content string) (*ResolvedJournal, []Load
 			Message: fmt.Sprintf("file too large: %d bytes (max %d)", len(content), limits.MaxFileSizeBytes),
 		}}
 	}
-	return l.loadWithContent(path, content, make(map[string]bool))
+	return l.loadWithContent(path, content, newLoadState())
 }
 
-func (l *Loader) loadWithContent(path, content string, visited map[string]bool) (*ResolvedJournal, []LoadError) {
+func (l *Loader) loadWithContent(path, content string, st *loadState) (*ResolvedJournal, []LoadError) {
 	var errors []LoadError
-	limits := l.getLimits()
-
-	if len(visited) >= limits.MaxIncludeDepth {
-		return nil, []LoadError{{
-			Kind:    ErrorCycleDetected,
-			Path:    path,
-			Message: fmt.Sprintf("include depth limit exceeded (%d)", limits.MaxIncludeDepth),
-		}}
-	}
 
 	journal, parseErrs := parser.Parse(content)
 	for _, e := range parseErrs {
@@ -137,7 +144,13 @@ func (l *Loader) loadWithContent(path, content string, visited map[string]bool) 
 	}
 
 	result := NewResolvedJournal(journal)
-	visited[path] = true
+	st.stack[path] = true
+	st.loaded[path] = true
+	st.depth++
+	defer func() {
+		delete(st.stack, path)
+		st.depth--
+	}()
 
 	for _, inc := range journal.Includes {
 		if IsGlobPattern(inc.Path) {
@@ -153,7 +166,7 @@ func (l *Loader) loadWithContent(path, content string, visited map[string]bool) 
 			}
 
 			for _, matchPath := range matches {
-				subErrors := l.loadSingleInclude(path, matchPath, inc.Range, visited, result)
+				subErrors := l.loadSingleInclude(path, matchPath, inc.Range, st, result)
 				errors = append(errors, subErrors...)
 			}
 			continue
@@ -170,7 +183,7 @@ func (l *Loader) loadWithContent(path, content string, visited map[string]bool) 
 			continue
 		}
 
-		subErrors := l.loadSingleInclude(path, includePath, inc.Range, visited, result)
+		subErrors := l.loadSingleInclude(path, includePath, inc.Range, st, result)
 		errors = append(errors, subErrors...)
 	}
 
@@ -180,13 +193,13 @@ func (l *Loader) loadWithContent(path, content string, visited map[string]bool) 
 func (l *Loader) loadSingleInclude(
 	basePath, includePath string,
 	incRange ast.Range,
-	visited map[string]bool,
+	st *loadState,
 	result *ResolvedJournal,
 ) []LoadError {
 	var errors []LoadError
 	limits := l.getLimits()
 
-	if visited[includePath] {
+	if st.stack[includePath] {
 		errors = append(errors, LoadError{
 			Kind:    ErrorCycleDetected,
 			Path:    includePath,
@@ -196,10 +209,25 @@ func (l *Loader) loadSingleInclude(
 		return errors
 	}
 
+	if st.loaded[includePath] {
+		return errors
+	}
+
+	if st.depth >= limits.MaxIncludeDepth {
+		errors = append(errors, LoadError{
+			Kind:    ErrorCycleDetected,
+			Path:    includePath,
+			Message: fmt.Sprintf("include depth limit exceeded (%d)", limits.MaxIncludeDepth),
+			Range:   incRange,
+		})
+		return errors
+	}
+
 	l.mu.RLock()
 	cached, ok := l.cache[includePath]
 	l.mu.RUnlock()
 	if ok {
+		st.loaded[includePath] = true
 		result.Files[includePath] = cached
 		result.FileOrder = append(result.FileOrder, includePath)
 		return errors
@@ -237,7 +265,7 @@ func (l *Loader) loadSingleInclude(
 		return errors
 	}
 
-	subResult, subErrors := l.loadWithContent(includePath, string(incContent), visited)
+	subResult, subErrors := l.loadWithContent(includePath, string(incContent), st)
 	errors = append(errors, subErrors...)
 
 	if subResult != nil && subResult.Primary != nil {
